@@ -542,3 +542,11 @@ CORPUS += [
     V("C18", "sampler-dispatch-inverted", _CU, 'distribution == "gaussian_mixture"', 'distribution != "gaussian_mixture"', "C18"),
     V("C18", "eq-op-prize-type-membership", _OPG, '        if self.prize_type == "const":', '        if self.prize_type in ("const",):', None),
 ]
+CORPUS += [
+    V("C18", "op-unif-prize-one-minus-draw", _OPG, "                1\n                + torch.randint(", "                1\n                - torch.randint(", "C18.v"),
+    V("C18", "op-dist-prize-norm-of-the-sum", _OPG, "prize = (locs_with_depot[..., 0:1, :] - locs_with_depot[..., 1:, :]).norm(", "prize = (locs_with_depot[..., 0:1, :] + locs_with_depot[..., 1:, :]).norm(", "C18.v"),
+    V("C18", "op-dist-prize-one-minus", _OPG, "                1 + (prize / prize.max(dim=-1, keepdim=True)[0] * 99).int()", "                1 - (prize / prize.max(dim=-1, keepdim=True)[0] * 99).int()", "C18.v"),
+    V("C18", "eq-op-dist-prize-difference-mirrored", _OPG, "prize = (locs_with_depot[..., 0:1, :] - locs_with_depot[..., 1:, :]).norm(", "prize = (locs_with_depot[..., 1:, :] - locs_with_depot[..., 0:1, :]).norm(", None),
+    V("C18", "eq-op-unif-prize-commuted", _OPG, "                1\n                + torch.randint(", "                torch.randint(", None) if False else
+    V("C18", "op-unif-prize-range-200", _OPG, "                    0, 100, (*batch_size, self.num_loc)", "                    0, 200, (*batch_size, self.num_loc)", "C18.v"),
+]
